@@ -8,7 +8,7 @@ out_json = "/verif/build/seeded_confirm.json"
 res = json.load(open(out_json)) if os.path.exists(out_json) else {}
 def sh(cmd, timeout=900, **kw):
     try:
-        return subprocess.run(cmd, shell=True, stdout=subprocess.PIPE, stderr=subprocess.STDOUT, text=True, timeout=timeout, **kw)
+        return subprocess.run(cmd, shell=True, stdout=subprocess.PIPE, stderr=subprocess.STDOUT, text=True, errors="replace", timeout=timeout, **kw)
     except subprocess.TimeoutExpired as e:
         class R: pass
         r = R(); r.returncode = 124; r.stdout = (e.stdout or b"").decode(errors="replace") if isinstance(e.stdout, bytes) else (e.stdout or ""); return r
